@@ -99,7 +99,7 @@ def fmt_atom(a):
     if a[0] == "f":
         return "%s(%s)" % (a[1], ", ".join(repr(Poly(dict(x))) for x in a[2]))
     if a[0] == "cap":
-        return "cap%d%s" % (a[1], "".join("." + str(x) for x in a[2]))
+        return "cap%s%s" % (a[1], "".join("." + str(x) for x in a[2]))
     if a[0] == "phi":
         return "phi_%d" % a[2]
     if a[0] == "call":
